@@ -165,6 +165,9 @@ func (r *Reader) Trailer() core.Dict {
 	return r.trailer
 }
 
+// maxNestedLoads is how many objects may be in the middle of being loaded at once.
+const maxNestedLoads = 16
+
 // GetObject loads an object by its number
 // Uses caching to avoid re-reading objects
 // Supports both uncompressed objects and objects in object streams (PDF 1.5+)
@@ -189,6 +192,15 @@ func (r *Reader) GetObject(objNum int) (core.Object, error) {
 	// stream itself would recurse until the stack is exhausted.
 	if r.loading[objNum] {
 		return nil, fmt.Errorf("object %d refers to itself while being loaded", objNum)
+	}
+	// The same re-entry can also form a long chain without ever repeating an
+	// object: a stream whose /Length is a stream whose /Length is a stream ...
+	// Every level keeps a parser open and wraps the error of the level below, so
+	// a chain of 5000 streams (a 280 KB file) took 6.8 GB and 20000 ended the
+	// process. A valid file nests two or three loads (an object in an object
+	// stream whose /Length is indirect).
+	if len(r.loading) >= maxNestedLoads {
+		return nil, fmt.Errorf("object %d: more than %d objects being loaded inside each other", objNum, maxNestedLoads)
 	}
 	if r.loading == nil {
 		r.loading = make(map[int]bool)
